@@ -564,7 +564,7 @@ int regcomp(regex_t *preg, char *pat, int flg)
 	struct regex *re;
 	int n = rnode_count(rnode) + 3;
 	int mark;
-	if (rnode && (rnode_bad || n > NINST + 3)) {	/* rejected, or too large */
+	if (rnode && (rnode_bad || n > NINST + 3 || *pat)) {	/* rejected, too large, or not all of it parsed */
 		rnode_free(rnode);
 		return 1;
 	}
